@@ -211,11 +211,11 @@ theorem coordFlush_sound {W : World} {cm : List Int} (c : Coord) (now : Int)
       · have : q = Req.zrem (c.advanced.map (·.seq)) := by simpa using hq
         rw [this]; trivial
 
-theorem coordOnCommitted_sound {W : World} {cm : List Int} (c : Coord) (r : Rec) (now : Int)
+theorem coordOnCommitted_sound {W : World} {cm : List Int} (c : Coord) (r : Rec) (now : Int) (pol : FlushPolicy)
     (h1 : SoundSnap W cm c.frontier) (h2 : ∀ p ∈ c.pending, RecSound W cm p) (hr : RecSound W cm r) :
-    SoundSnap W cm (coordOnCommitted c r now).1.frontier ∧
-    (∀ p ∈ (coordOnCommitted c r now).1.pending, RecSound W cm p) ∧
-    (∀ q ∈ (coordOnCommitted c r now).2, QOk W cm q) := by
+    SoundSnap W cm (coordOnCommitted c r now pol).1.frontier ∧
+    (∀ p ∈ (coordOnCommitted c r now pol).1.pending, RecSound W cm p) ∧
+    (∀ q ∈ (coordOnCommitted c r now pol).2, QOk W cm q) := by
   unfold coordOnCommitted
   have hp1 : ∀ p ∈ c.pending.filter (fun x => x.seq ≠ r.seq) ++ [r], RecSound W cm p := by
     intro p hp
@@ -298,7 +298,7 @@ theorem step_inv {W : World} {s : Sys} (hi : SysInv W s) (st : Step) : SysInv W 
       · rw [if_pos hc]
         obtain ⟨a, b, c⟩ := hi.co r hr
         have hrec : RecSound W s.committed (unitRec W i mt) := ⟨rfl, hc.1, by simp only [unitRec]; omega⟩
-        obtain ⟨h1, h2, h3⟩ := coordOnCommitted_sound r.coord (unitRec W i mt) now a c hrec
+        obtain ⟨h1, h2, h3⟩ := coordOnCommitted_sound r.coord (unitRec W i mt) now W.pol a c hrec
         refine ⟨hi.root, hi.jr, hi.fr, ?_, ?_⟩
         · intro r' hr'
           simp only [Option.some.injEq] at hr'; subst hr'
